@@ -164,6 +164,27 @@ fn check(ctx: &Ctx, c: &Case) -> PResult {
             return Err(Fail::new("logic-shape-depends-on-values", "two builds of the same logic component differ in layout"));
         }
     }
+    // model-free adversary: the result (or one internal wire) decided by the
+    // prover, inputs kept, every other wire re-solved row by row
+    {
+        for (name, forged) in [("result + 1", want + F::one()), ("result of the other operation", if c.xor { spec::bit_and(&a, &b, bits) } else { spec::bit_xor(&a, &b, bits) }), ("untruncated result", if c.xor { spec::bit_xor(&a, &b, 256) } else { spec::bit_and(&a, &b, 256) })] {
+            if forged == want {
+                continue;
+            }
+            ctx.add_evals(1);
+            ctx.label("adversary: propagation from a forged result");
+            let pins = [(in_a, a), (in_b, b), (ret_w, forged)];
+            if let Some(msg) = gadget::propagation_attack(&g, &pins, c.seed, &format!("{} with {pairs} pairs on ({}, {}), returned witness forced to the {name}", if c.xor { "xor" } else { "and" }, fe_short(&a), fe_short(&b)), |_| true)? {
+                return Err(Fail::new("logic-resolved-wires-accepted", msg));
+            }
+        }
+        let (n, hit) = gadget::wire_perturbation_attacks(&g, 2, &[in_a, in_b], 6, c.seed ^ c.pos as u64, c.seed, &format!("{} with {pairs} pairs on ({}, {})", if c.xor { "xor" } else { "and" }, fe_short(&a), fe_short(&b)), |asg| asg[ret_w] != want)?;
+        ctx.add_evals(n);
+        ctx.label_n("adversary: single-wire perturbation + propagation", n);
+        if let Some(msg) = hit {
+            return Err(Fail::new("logic-resolved-wires-accepted", msg));
+        }
+    }
     let honest = gadget::honest_logic_choice(&a, &b, pairs);
     let honest_segs = gadget::logic_segs(pairs, c.xor, &honest);
     let honest_ranges = gadget::logic_ranges(pairs, &honest);
@@ -322,6 +343,6 @@ pub fn sweeps(ctx: &Ctx) {
 }
 
 pub fn describe(ctx: &Ctx) {
-    ctx.rule("cases: operation {and, xor} x pair count 0..=127 (every count in the sweep) x inputs {0, r-1, all-ones, equal below the width and different above, 1, random}; adversarial assignments on the unchanged layout {accumulators of a+r / b+r with honest and forged is_top/guard wires, accumulators of another input, one product wire off, output accumulators of the other operation, one output quad changed, free change of the returned witness}. Oracle: returned value = AND/XOR of the low 2*pairs bits (integer arithmetic), reference row evaluator for satisfiability, real prover on a sample and on every hit. non-trivial = every case; distinct by (op, pairs, classes, values)");
+    ctx.rule("cases: operation {and, xor} x pair count 0..=127 (every count in the sweep) x inputs {0, r-1, all-ones, equal below the width and different above, 1, random}; adversarial assignments on the unchanged layout {accumulators of a+r / b+r with honest and forged is_top/guard wires, accumulators of another input, one product wire off, output accumulators of the other operation, one output quad changed, free change of the returned witness} and the model-free propagation adversary (returned witness forced to result+1 / the other operation's result / the untruncated result, or one random internal wire changed; inputs kept; all other wires re-solved row by row). Oracle: returned value = AND/XOR of the low 2*pairs bits (integer arithmetic), reference row evaluator for satisfiability, real prover on a sample and on every hit. non-trivial = every case; distinct by (op, pairs, classes, values)");
     ctx.assume("role model of the logic gadget's witness allocation is validated per case against the honest table");
 }
